@@ -71,6 +71,33 @@ type PtrEmbed struct {
 	N int
 }
 
+// IntKeys holds maps whose keys are not strings: written under the digits of the key, as
+// encoding/json writes them.
+type IntKeys struct {
+	M  map[int]string
+	U  map[uint8]int64
+	N  map[int64]*Inner
+	In Inner
+}
+
+// (no negative keys: the SEN writers write a key that starts with '-' bare, which does not read
+// back - recorded as C10-K1, not this catalogue's business)
+// EncodeOnlySize is the number of catalogue values that only the encoders are given (the
+// recomposer has no way back for them).
+const EncodeOnlySize = 3
+
+// EncodeOnly returns value number i of the values for the encoders alone.
+func EncodeOnly(i int) any {
+	switch i % EncodeOnlySize {
+	case 0:
+		return IntKeys{M: map[int]string{1: "a", 2: "b", 10: "c"}, U: map[uint8]int64{7: 1, 255: 0}, N: map[int64]*Inner{1 << 40: {X: 1}, 5: nil}, In: Inner{X: 1}}
+	case 1:
+		return IntKeys{M: map[int]string{}, U: nil, N: map[int64]*Inner{0: {}}}
+	default:
+		return map[int]any{3: true, 1: IntKeys{M: map[int]string{0: ""}}, 20: []any{map[int8]any{3: nil, 4: "x"}}}
+	}
+}
+
 // CatalogueSize is the number of catalogue values.
 const CatalogueSize = 14
 
